@@ -42,6 +42,10 @@ CLAIMED = {
          "Arbitrary modules (every card kind in every slot, unique card ids) and histories of get/insert/remove/replace/swap/walk plus the law pairs insert;remove, replace;replace-back, swap;swap, with indices valid w.r.t. the evolving model or invalid in a specific way; Ok/Err, the resulting id-tree, serde_json text after failed edits and child count/enumeration/lookup agreement are checked after every op.",
          "Trusts the tree model and its list-vs-fixed-slot table (taken from the doc comment of insert_child); swap(a,a) is taken to be the identity.",
          "DESIGN.md section 4, C16"),
+ "C17": ("exploration", "history-based differential testing: a reused VM against newly built VMs, repeated histories, and repetition sweeps (proptest-driven)",
+         "Histories of 2-40 steps (run with a budget, clear, set_memory_limit) over one VM with programs ending in every way (Ok, Timeout, OutOfMemory, Stackoverflow, CallStackOverflow, native error, error inside a native->script callback, open upvalues, garbage beyond the collection threshold): every run directly after clear / set_memory_limit is replayed on a newly built VM and must match in observation, dispatched instructions, allocated bytes, next collection threshold, number of collections and value-stack height; each history is executed twice and must give identical observation sequences; repetition sweeps run one program 3..300 times with and (for stack-balanced successful programs) without clear and require every run to equal the first.",
+         "Stack sizes are fixed at 256; generated programs never read a global before assigning it within the same run.",
+         "DESIGN.md section 4, C17"),
  "C18": ("exploration", "differential testing of generated native-call programs against a conversion model in the reference interpreter, plus stack-height invariants measured inside re-entering natives (proptest-driven)",
          "Natives with 25 typed signatures (arity 0-4 over every supported parameter type) and value-returning natives are called with arguments of every kind through CallNative, native values + DynamicCall and re-entering natives, from main, from frames above other values and in loops; the reference interpreter applies the documented conversions and predicts recorded parameters, results, TaskFailure wrapping and which parameter must be named as rejected. Re-entry: the harness natives call0/call1/call2 measure value-stack and call-stack heights (hook) around every successful run_function; generated programs re-enter with script functions, capturing closures and natives as callees, nested. Reserved names must be unregistrable.",
          "Trusts the conversion model (written from value.rs' documented TryFrom table) and the inspection hooks; when several parameters are unconvertible any of them may be named.",
